@@ -267,7 +267,7 @@ def make_rep(scaf_name, n, op, facet, step=None, attached=False, twin=False, pre
             with NoTracing():
                 try:
                     apply_real(pre, raw, pi, pi + 2 if pre == 'delslice' else (pi if pre == 'setslice' else None),
-                               [sc.donors[pd]()] + ([sc.donors[1 - pd]()] if pre == 'setslice' else []), None)
+                               [sc.donors[pd]()] + ([sc.donors[1 - pd]()] if pre in ('setslice', 'extend') else []), None)   # multi-value insertions: two donors
                 except REFUSALS:
                     return
                 docenv.tree_invariant(f, what='tree after the first operation (%s at %s)' % (pre, pi))
@@ -476,7 +476,7 @@ for _facet, _prop in FACET_PROP.items():
     for _scaf in SCAFFOLDS:
         for _pre in ('insert', 'pop', 'setslice', 'delslice', 'extend'):
             for _op in ('insert', 'pop', 'setitem', 'delitem', 'append', 'extend', 'clear'):
-                quick = _scaf in QUICK_SCAF[_facet][:2] and (_pre, _op) in (('insert', 'pop'), ('pop', 'insert'), ('setslice', 'setitem'), ('extend', 'delitem'))
+                quick = _scaf in QUICK_SCAF[_facet][:2] and (_pre, _op) in (('insert', 'pop'), ('pop', 'insert'), ('setslice', 'setitem'), ('setslice', 'pop'), ('extend', 'delitem'))
                 _reg(make_rep(_scaf, 2, _op, _facet, pre=_pre), {_prop: Q if quick else T}, 900, 'rep2/' + _facet,
                      '%s with 2 items: raw %s at a symbolic index, then %s' % (_scaf, _pre, _bounds(_scaf, 2, _op)), cost=600)
 # block layouts: the same operations on stores re-partitioned into symbolically chosen legal block layouts (load factors 2, 4, 5)
